@@ -71,7 +71,7 @@ impl Property for C11 {
         "Cases: (a) native integer x of each of six types -> each of 18 zoo types, by value and by reference; (b) slices of 0..5 (quick)/0..12 (thorough) integers of each type -> each zoo type; (c) vector of any type/length/provenance -> each native type, by reference and by value; (d) Bit<->bool/uN. Enumerated: all u8 and u16 values exhaustively and the integer lattice for wider types x 18 types x 2 forms; every vector length 0..=min(C,320) with three value classes plus values whose significant bits are w-1,w,w+1 for each native width w, x 6 native types x 2 forms; slices of every count whose total straddles the capacity. Oracle: native integer arithmetic: Ok(value x, length w or min(w,C)) or Err(NotEnoughCapacity) exactly when significant bits exceed the capacity/width; never a panic. Non-trivial: the value or length straddles a capacity or width boundary (within 1), or the vector is empty, or longer than the target width with a small value. Distinct by hash of the case.".into()
     }
     fn random_cases(&self, tier: Tier) -> u64 {
-        tier.pick(60_000, 600_000)
+        tier.pick(300000, 1200000)
     }
     fn strategy(&self, tier: Tier) -> BoxedStrategy<C11Case> {
         let maxitems = tier.pick(6, 13);
@@ -119,8 +119,8 @@ impl Property for C11 {
                     if let Some(c) = fixed_cap(ty) {
                         for k in [c.saturating_sub(1), c, c + 1] {
                             if k > 0 && k <= 128 {
-                                vs.push((1u128 << (k - 1)) & nty.max());
-                                vs.push(if k == 128 { u128::MAX } else { (1u128 << k) - 1 } & nty.max());
+                                vs.push((1u128 << (k - 1)) & nty.maxv());
+                                vs.push(if k == 128 { u128::MAX } else { (1u128 << k) - 1 } & nty.maxv());
                             }
                         }
                     }
@@ -160,7 +160,7 @@ impl Property for C11 {
                 let maxc = if c == usize::MAX { maxitems } else { (c / nty.bits() + 2).min(40) };
                 for count in 0..=maxc {
                     for pat in 0..3u128 {
-                        let items: Vec<Nat> = (0..count).map(|i| Nat::new(nty, match pat { 0 => nty.max(), 1 => (i as u128 + 1) * 0x0123_4567_89AB_CDEF_0F1E_2D3C_4B5A_6978, _ => 1u128 << ((i * 7) % nty.bits()) })).collect();
+                        let items: Vec<Nat> = (0..count).map(|i| Nat::new(nty, match pat { 0 => nty.maxv(), 1 => (i as u128 + 1) * 0x0123_4567_89AB_CDEF_0F1E_2D3C_4B5A_6978, _ => 1u128 << ((i * 7) % nty.bits()) })).collect();
                         if !f(C11Case::FromSlice { ty, nty, items }) {
                             return;
                         }
@@ -230,7 +230,7 @@ impl Property for C11 {
                 st.class(if *by_ref { "from &uN" } else { "from uN" });
                 st.class_if(!fits, "from uN: overflow");
                 let near = cap.map_or(false, |c| (sig128(x.v) as i64 - c as i64).abs() <= 1 || (w as i64 - c as i64).abs() <= 8);
-                st.note(case, near || x.v == x.ty.max() || x.v == 0);
+                st.note(case, near || x.v == x.ty.maxv() || x.v == 0);
                 Ok(())
             }
             C11Case::FromSlice { ty, nty, items } => {
